@@ -797,8 +797,14 @@ func c08Gen(r *hx.Rng, n int, tier string) []string {
 	for _, sz := range []int{0, 1, 7, 8, 9, 10, 11, 12, 13, 14, 15, 8193, 8200} {
 		lines = append(lines, kwpLine(r, hx.PickS(r, []int{16, 32}), sz))
 	}
-	for _, kl := range []int{0, 15, 24, 33, 64} {
+	// NewKWP's KEK-size rule: only 16 and 32 (AES-192 keys, neighbours and multiples are refused)
+	for _, kl := range []int{0, 1, 8, 15, 17, 24, 24, 31, 33, 48, 64, 128} {
 		lines = append(lines, kwpLine(r, kl, 16+r.Intn(40)))
+	}
+	// every error kind of Unwrap under an accepted KEK: sizes around the window, not a multiple of 8
+	for _, wl := range []int{0, 8, 16, 23, 24, 25, 31, 32, 8192, 8199, 8200, 8201, 8208} {
+		kek := r.Bytes(hx.PickS(r, []int{16, 32}))
+		lines = append(lines, fmt.Sprintf("C08|kwp|%s|%s|raw:%s", hx.H(kek), hx.H(r.Bytes(8)), hx.H(r.Bytes(wl))))
 	}
 	lines = append(lines, kwpLine(r, 16, 8192), kwpLine(r, 32, 8191), kwpLine(r, 32, 8185))
 	// the random part: larger and random sizes
